@@ -210,4 +210,44 @@ def rule_sort_whole_lines(ctx):
     r.floor(6)
 
 
-RULES = [rule_effects, rule_pairing, rule_remove_precondition, rule_scan_agreement, rule_swap_first_on_line, rule_sort_whole_lines]
+def rule_oc_sort_keeps_words(ctx):
+    """mod_sort_oc_properties rebuilds the attribute list from its buckets and deletes what is left before the `)`: a word
+    that lands in no bucket disappears (an identifier token, not one of the documented kinds)"""
+    db = ctx.db
+    r = ctx.rule("oc-sort-keeps-words", "handle_oc_property_decl(): while a loop deletes every chunk it did not move, each pass of the classifying loop "
+                 "that can see an attribute or a word (every edge but the false edge of next->IsWord()) reaches a push_back of it before "
+                 "it steps to the following chunk")
+    f = db.fn("handle_oc_property_decl", file="src/tokenizer/combine.cpp")
+    r.names(f, "next", "curr_chunk")
+    dels = [n for n in db.calls_in(f, "Chunk::Delete")]
+    r.require(len(dels) >= 1, "handle_oc_property_decl: the loop that deletes the chunks left over was not found")
+    restricted = all(any(pol is True and "CT_COMMA" in expr_str(f, cn) for cn, pol in f.guard_conds(f.nblock[d["i"]]) if cn is not None) for d in dels)
+    pushes = [n for n in f.all_nodes() if n["k"] == "call" and (n.get("c") or "").endswith("::push_back") and n.get("a")
+              and expr_str(f, n["a"][0]) in ("next", "chunkGroup")]
+    r.require(len(pushes) >= 8, "handle_oc_property_decl: only %d bucket push_back calls found" % len(pushes))
+    heads = []
+    for h, body, _ in f.loops():
+        t = f.blocks[h].get("term")
+        # the classifying loop: its body holds the pushes, its condition looks for the closing parenthesis
+        if sum(1 for n in pushes if f.nblock[n["i"]] in body) >= 8:
+            heads.append((h, body))
+    r.require(len(heads) >= 1, "handle_oc_property_decl: classifying loop not found")
+    h, body = min(heads, key=lambda x: len(x[1]))
+    pid = set(n["i"] for n in pushes)
+    steps = set(n["i"] for n in f.all_nodes() if n["k"] == "asg" and expr_str(f, n["i"]).startswith("next = next->GetNext(") and f.nblock[n["i"]] in body)
+    r.require(steps, "handle_oc_property_decl: the step `next = next->GetNext()` of the classifying loop was not found")
+    wordtests = [b for b in body if f.blocks[b].get("term") and expr_str(f, f.blocks[b]["term"].get("lc", f.blocks[b]["term"].get("c"))) == "next->IsWord()"]
+
+    def edge_ok(b, ei):
+        return not (b in wordtests and ei == 1)
+    entry = [x for x in f.succ[h] if x in body and x != h]
+    for e in entry[:1]:
+        r.seen()
+        w = f.paths_avoiding(e, lambda n: n["i"] in steps, lambda n: n["i"] in pid, start_is_node=False, edge_ok=edge_ok)
+        r.check(restricted or w is None, "handle_oc_property_decl/every-word-is-moved", db.loc(f, w[1] if w else f.l0),
+                "a chunk of the attribute list that is an attribute or a word can pass the classifying loop without being put into a bucket; "
+                "the loop at line %d then deletes it" % dels[-1]["l"], path=["%s:%d" % (f.file, l) for l in f.path_lines(w[0])][-8:] if w else None)
+    r.floor(1)
+
+
+RULES = [rule_effects, rule_pairing, rule_remove_precondition, rule_scan_agreement, rule_swap_first_on_line, rule_sort_whole_lines, rule_oc_sort_keeps_words]
